@@ -222,7 +222,8 @@ class World:
         self.steps = 0
         self.crashed = [False] * m
         self.errors = [[] for _ in range(m)]
-        self.trace = []          # scheduler actions taken
+        self.trace = []          # scheduler actions taken (not kept for batch worlds: keep_trace = False)
+        self.keep_trace = True
         self.observers = []      # objects with optional note_* methods
         self.net = SimNet(self)
         self.rand = rand if rand is not None else random.Random(seed)
@@ -383,7 +384,8 @@ class World:
             asyncio.events._set_running_loop(None)
         self.clock += 1e-4            # virtual time passes during iterations
         self.steps += 1
-        self.trace.append(('run', i))
+        if self.keep_trace:
+            self.trace.append(('run', i))
 
     def step_accept(self, key):
         self.net.accept(self.net.conns[key])
@@ -403,7 +405,8 @@ class World:
             if f:
                 f(src, dst, data)
         self.steps += 1
-        self.trace.append(('arrive', src, dst, k))
+        if self.keep_trace:
+            self.trace.append(('arrive', src, dst, k))
 
     def step_eof(self, src, dst):
         c = self.net.conns[(min(src, dst), max(src, dst))]
